@@ -6,7 +6,50 @@ STD_ASSUME = ["the Lean model is tied to /repo by the T1 extractor and the T2 co
 HOOK_COMMITS = []
 
 PROPS = {
+    "C01": {
+        "claimed": True,
+        "model_modules": ["TemplVerif.Model.Html", "TemplVerif.Model.Attrs", "TemplVerif.Model.Sinks", "TemplVerif.Spec.HtmlTok"],
+        "proof_modules": ["TemplVerif.Proofs.Html"],
+        "thorough_shards": 8,
+        "level_text": "Lean 4 theorems prove, for EVERY byte string: the escaper's output has no < > \" ' and decodes back to the input "
+                      "(C01_escape_noStructural, C01_decode_escape[_append]); in the WHATWG tokenizer specification an escaped string placed "
+                      "in the data state or in a double-quoted attribute value is consumed entirely in that state (C01_hole_data, C01_hole_attr, "
+                      "C01_text_sink); spread-attribute string forms and the JSON script element's id/type/nonce become exactly the intended "
+                      "attributes (C01_spread_value, C01_jsonscript_open); and every dynamic write site the generator can emit (list "
+                      "regenerated from generator.go each run) goes through templ.EscapeString (C01_sinks_wired, decide). The models are "
+                      "compared with the real EscapeString / RenderAttributes / JSONScript on every run; 24 sink kinds are rendered through "
+                      "the real generator+runtime with adversarial strings and the Lean tokenizer predicate (same token stream as the "
+                      "author's markup with the value substituted) is evaluated on the real output; the tokenizer spec is cross-checked "
+                      "against golang.org/x/net/html on every document.",
+        "level_note": "Trusted: Lean kernel; the hand-written tokenizer specification (cross-checked against x/net/html; compared modulo "
+                      "CR/NUL input normalisation); html.EscapeString modelled as five byte replacements; decodeRefs covers the five references "
+                      "the escaper emits; composition over all templates (that every sink sits in data / double-quoted value state) is "
+                      "established per fixture template by the correspondence run and in general by C02's generator model, not by a theorem here; "
+                      "attribute NAMES from spread maps and text in RAWTEXT elements other than script/style are outside the statement.",
+        "rule": "escaper: exhaustive over a 20-symbol alphabet (& < > \" ' / = space NUL CR LF TAB a e-acute 0xFF 0xC3 U+2028 % ; #) to "
+                "length 3 (quick) / 5 (thorough); 24 sink kinds (text, attribute, conditional attribute, spread string/*string/KeyValue, class, "
+                "style, href/action, textarea/title, JSON script id/type/nonce, script nonce) x 70 adversarial strings x all strings to length "
+                "2/3 over 13 symbols x random concatenations; RenderAttributes on random maps of all 8 value kinds; JSONScript opening tags. "
+                "Distinct = distinct (op, inputs); non-trivial = value contains a metacharacter, %, NUL or non-ASCII byte.",
+        "exhaustive": True,
+        "proved": ["escape: no structural bytes, decode . escape = id (all byte strings)", "tokenizer hole lemmas for data and double-quoted attribute value",
+                   "spread attribute value / JSON script open tag token shape", "all generator sinks wired through EscapeString (T1, decide)"],
+        "monitored": ["model = real EscapeString / RenderAttributes / JSONScript header", "token-stream predicate on real rendered output of 24 sink kinds",
+                      "Lean tokenizer = x/net/html tokenizer on every rendered document"],
+        "partial": ["general composition over arbitrary templates relies on C02's generator model"],
+        "trusted_base": ["html.EscapeString = byte-level replacer of & < > \" '", "WHATWG tokenizer fragment (Spec/HtmlTok.lean)"],
+        "assumptions": STD_ASSUME,
+    },
     "C04": {
+        "claimed": True,
+        "level_text": "Lean 4 theorems (C04_main, C04_else, C04_okPair; kernel-checked, axioms audited) prove for EVERY byte string that the "
+                      "model of templ.URL returns its input only when the WHATWG scheme-state specification sees no scheme or an "
+                      "allow-listed one, and the failure URL otherwise. The scheme list and failure constant are regenerated from url.go "
+                      "on every run (pinned to the statement's list by decide); the model is compared with the real templ.URL on an "
+                      "exhaustive adversarial space (6.9e5 strings quick, ~3e7 thorough) and the Lean predicate is evaluated on the real outputs.",
+        "level_note": "Trusted: Lean kernel; the hand-written WHATWG scheme specification; Go's strings.EqualFold/IndexRune modelled (simple "
+                      "folding of U+017F/U+212A included); control flow of templ.URL transcribed by hand (tied by T2); the href/action typing "
+                      "clause is a Go type-checker fact that is observed elsewhere, not proved.",
         "model_modules": ["TemplVerif.Model.Url"],
         "proof_modules": ["TemplVerif.Proofs.Url"],
         "thorough_shards": 12,
